@@ -1,6 +1,7 @@
 package main
 
 import (
+	"go/types"
 	"bytes"
 	"go/ast"
 	"go/printer"
@@ -41,7 +42,7 @@ func packageVarInits(c *Ctx, pkgPath string) map[string]string {
 				for i, n := range vs.Names {
 					var buf bytes.Buffer
 					if i < len(vs.Values) {
-						printer.Fprint(&buf, token.NewFileSet(), vs.Values[i])
+						printer.Fprint(&buf, token.NewFileSet(), keyedLits(p.TypesInfo, vs.Values[i]))
 					} else if len(vs.Values) == 0 && gd.Tok == token.CONST {
 						buf.WriteString("<iota-continued>")
 					}
@@ -336,4 +337,63 @@ func decoderLimitMatchesAdvertisement(r *R) {
 			o.AtI(s).Fail("%s changes the header decoder's table limit after construction (%s)", funcName(fn), calleeName(callOf(s)))
 		}
 	}
+}
+
+// keyedLits returns e with every positional struct literal rewritten in keyed form (a copy; e is not modified), so that
+// `T{x, y}` and `T{A: x, B: y}` print alike. Other nodes are shared with e.
+func keyedLits(info *types.Info, e ast.Expr) ast.Expr {
+	if info == nil || e == nil {
+		return e
+	}
+	var cp func(x ast.Expr) ast.Expr
+	cps := func(xs []ast.Expr) []ast.Expr {
+		out := make([]ast.Expr, len(xs))
+		for i, x := range xs {
+			out[i] = cp(x)
+		}
+		return out
+	}
+	cp = func(x ast.Expr) ast.Expr {
+		switch n := x.(type) {
+		case *ast.CompositeLit:
+			c2 := *n
+			c2.Elts = cps(n.Elts)
+			if tv, ok := info.Types[n]; ok && tv.Type != nil {
+				t := tv.Type
+				if pt, ok := t.Underlying().(*types.Pointer); ok {
+					t = pt.Elem()
+				}
+				if st, ok := t.Underlying().(*types.Struct); ok && len(c2.Elts) > 0 {
+					if _, keyed := c2.Elts[0].(*ast.KeyValueExpr); !keyed && len(c2.Elts) <= st.NumFields() {
+						for i, el := range c2.Elts {
+							c2.Elts[i] = &ast.KeyValueExpr{Key: ast.NewIdent(st.Field(i).Name()), Value: el}
+						}
+					}
+				}
+			}
+			return &c2
+		case *ast.KeyValueExpr:
+			k2 := *n
+			k2.Value = cp(n.Value)
+			return &k2
+		case *ast.CallExpr:
+			c2 := *n
+			c2.Args = cps(n.Args)
+			return &c2
+		case *ast.UnaryExpr:
+			u2 := *n
+			u2.X = cp(n.X)
+			return &u2
+		case *ast.ParenExpr:
+			p2 := *n
+			p2.X = cp(n.X)
+			return &p2
+		case *ast.BinaryExpr:
+			b2 := *n
+			b2.X, b2.Y = cp(n.X), cp(n.Y)
+			return &b2
+		}
+		return x
+	}
+	return cp(e)
 }
